@@ -6,8 +6,9 @@ output directly."""
 import itertools
 import json
 import os
+import random
 
-from . import common
+from . import common, gen, queryfam, worldfam, worldgen
 
 
 def run(ctx, spec, out):
@@ -75,3 +76,176 @@ def run(ctx, spec, out):
             v.samples.append({"online": online, "backends": backends, "assigned": per_node})
     out.extra_cov["exhaustive"] = True
     out.extra_cov["configurations"] = len(cases)
+    cluster_part(ctx, v, out)
+
+
+# ---------------------------------------------------------------------------------------------
+# running clusters: 2-3 daemons with http listeners configured as nodes of one cluster over the same scripted backends.
+# Nodes join, leave, are replaced and restart; after every node ran its availability check the assignment must be a
+# partition of the backends over the reachable nodes (every node's view of it the same), and a request sent to any node
+# must be answered like a single lmd that holds all backends (the model's answer on the union of the backends).
+
+T0 = 1700000000
+
+
+def cluster_part(ctx, v, out):
+    rng = random.Random("C18-cluster-%d" % ctx["seed"])
+    schema = ctx["schema"]
+    nscen = 5 if ctx["tier"] == "quick" else 40
+    nq = 14 if ctx["tier"] == "quick" else 30
+    impl_lines, model_lines, scen = [], [], []
+    n = 0
+
+    def add(line, model=False):
+        nonlocal n
+        n += 1
+        line = dict(line, id=n)
+        impl_lines.append(line)
+        return n
+
+    for si in range(nscen):
+        k = rng.choice([2, 2, 3])
+        nb = rng.choice([1, 2, 3, 4, 5])
+        ds = gen.gen_dataset(rng, {"nbackends": [nb], "nhosts": [1, 2, 3], "nsvcs": [0, 1, 2]})
+        wbs, mbs = [], []
+        for b in ds["backends"]:
+            flavour, flags = worldgen.pick_flavour(rng)
+            wb = worldgen.full_backend(schema, b, flavour, flags, rng)
+            wbs.append(wb)
+            mbs.append(worldgen.model_backend(schema, wb, flags))
+        gds = {"backends": [{"id": mb["id"], "name": mb["name"], "flags": mb["flags"], "tables": mb["tables"]} for mb in mbs]}
+        cfg = {"max_parallel_peer_connections": 1, "backend_keepalive": False, "idle_timeout": 100000, "net_timeout": 5, "connect_timeout": 2}
+        n += 1
+        model_lines.append({"op": "sync", "id": n, "dataset": {"backends": mbs, "service_auth": "loose", "group_auth": "strict"}})
+        order = list(range(k))
+        rng.shuffle(order)
+        first = order[:rng.choice([1, k])]
+        add({"op": "clock", "seconds": T0})
+        add({"op": "cluster", "config": cfg, "backends": wbs, "nodes": k, "start": first})
+        running = set(first)
+        steps = []
+
+        def converge(what):
+            # every running node looks at its partners; twice, so that what the first learned reaches the others
+            for _ in range(2):
+                for i in sorted(running):
+                    add({"op": "ccheck", "node": i})
+            states = {i: add({"op": "cstate", "node": i}) for i in sorted(running)}
+            queries = []
+            texts = []
+            for _ in range(nq):
+                r = rng.random()
+                opts = {"depth": [0, 1, 2], "sort": 0.5, "limit": 0.4, "offset": 0.3, "authuser": 0.2, "backends": 0.3}
+                texts.append(gen.gen_stats_query(rng, schema, gds, opts) if r < 0.3 else gen.gen_data_query(rng, schema, gds, opts))
+            texts += ["GET hosts\nColumns: name state peer_key\nOutputFormat: wrapped_json\n\n", "GET hosts\n\n",
+                      "GET services\nColumns: host_name description state\nSort: description desc\nSort: host_name asc\nLimit: 3\nOffset: 1\nOutputFormat: json\n\n",
+                      "GET hosts\nStats: state = 0\nStats: avg latency\nStats: max last_check\nStats: min state\nOutputFormat: json\n\n",
+                      "GET services\nColumns: host_name\nStats: state != 9\nStats: sum state\nOutputFormat: json\n\n",
+                      "GET hosts\nColumns: name\nAuthUser: alice\nOutputFormat: json\n\n"]
+            for text in texts:
+                node = rng.choice(sorted(running))
+                nonlocal_n = add({"op": "cquery", "node": node, "text": text, "optimize": True})
+                model_lines.append({"op": "query", "id": nonlocal_n, "text": text, "optimize": True})
+                queries.append((nonlocal_n, node, text))
+            steps.append({"what": what, "running": sorted(running), "states": states, "queries": queries})
+
+        converge("start %s" % first)
+        for ev in range(rng.choice([1, 2, 3])):
+            down = [i for i in range(k) if i not in running]
+            choice = rng.choice(["stop", "start", "replace", "restart"])
+            if choice == "stop" and len(running) > 1:
+                j = rng.choice(sorted(running))
+                add({"op": "cstop", "node": j})
+                running.discard(j)
+                what = "node %d leaves" % j
+            elif choice == "replace" and down and len(running) > 1:
+                j = rng.choice(sorted(running))
+                u = rng.choice(down)
+                add({"op": "cstop", "node": j})
+                running.discard(j)
+                add({"op": "cstart", "node": u})
+                running.add(u)
+                what = "node %d leaves, node %d joins before anybody looks" % (j, u)
+            elif choice == "restart" and len(running) > 1:
+                j = rng.choice(sorted(running))
+                add({"op": "cstop", "node": j})
+                add({"op": "cstart", "node": j})
+                what = "node %d restarts" % j
+            elif down:
+                u = rng.choice(down)
+                add({"op": "cstart", "node": u})
+                running.add(u)
+                what = "node %d joins" % u
+            else:
+                continue
+            converge(what)
+        add({"op": "cend"})
+        scen.append({"k": k, "backends": [wb["id"] for wb in wbs], "steps": steps, "dataset": {"world": wbs}, "first": len(impl_lines)})
+    scratch = os.path.join(common.BUILD, "scratch-%d" % os.getpid())
+    # scenarios are independent: one process each, several at a time
+    chunks, cur = [], []
+    for l in impl_lines:
+        cur.append(l)
+        if l["op"] == "cend":
+            chunks.append(cur)
+            cur = []
+    import concurrent.futures
+
+    def one(arg):
+        i, chunk = arg
+        return common._run_once(ctx["binary"], chunk, "%s-c%d" % (scratch, i), 600)
+    with concurrent.futures.ThreadPoolExecutor(4) as ex:
+        outs = list(ex.map(one, enumerate(chunks)))
+    model = common.run_model(ctx["schema_path"], model_lines)
+    totals = {"scenarios": nscen, "steps": 0, "queries": 0, "distributed_answers": 0}
+    for sc, chunk, (rc, impl, err, timed_out) in zip(scen, chunks, outs):
+        case0 = {"text": "cluster of %d nodes, backends %s" % (sc["k"], sc["backends"]), "dataset": None, "extra": {"part": "cluster", "lines": chunk}}
+        if rc != 0 or timed_out:
+            v.violations.append(("crash", case0, "the cluster run ended (%s): %s" % ("timeout" if timed_out else "status %s" % rc, common.panic_excerpt(err) or err[-800:])))
+            continue
+        for st in sc["steps"]:
+            totals["steps"] += 1
+            v.stats["evaluated"] += 1
+            case = dict(case0, text="%s; %s" % (case0["text"], st["what"]), extra=dict(case0["extra"], step=st["what"], lines=[l for l in chunk if l["id"] <= max(st["states"].values())]))
+            views = {}
+            bad = None
+            for i, sid in st["states"].items():
+                r = (impl.get(sid) or {}).get("state")
+                if not r:
+                    bad = "node %d gave no state: %s" % (i, str(impl.get(sid))[:200])
+                    break
+                views[i] = r
+            if bad:
+                v.violations.append(("crash", case, bad))
+                continue
+            assigned = {i: views[i]["assigned"] or [] for i in views}
+            flat = sorted(b for i in assigned for b in assigned[i])
+            problem = None
+            if flat != sorted(sc["backends"]):
+                problem = "after every node looked at its partners the backends are not assigned exactly once over the running nodes %s: %s" % (st["running"], assigned)
+            else:
+                sizes = [len(assigned[i]) for i in assigned]
+                if max(sizes) - min(sizes) > 1:
+                    problem = "the assignment is not as even as the counts allow: %s" % assigned
+                for i in views:
+                    online = sorted(views[i]["online"] or [])
+                    if online != st["running"] and not problem:
+                        problem = "node %d takes %s for reachable, running are %s" % (i, online, st["running"])
+                    nbv = {int(kk): vv or [] for kk, vv in (views[i]["node_backends"] or {}).items() if not kk.startswith("?")}
+                    for j in st["running"]:
+                        if sorted(nbv.get(j, [])) != sorted(assigned[j]) and not problem:
+                            problem = "node %d believes node %d serves %s, it serves %s" % (i, j, nbv.get(j), assigned[j])
+            if problem:
+                v.violations.append(("property", case, problem + " (step: %s)" % st["what"]))
+                continue
+            if len(st["running"]) >= 2 and len(sc["backends"]) >= 2:
+                v.stats["nontrivial"] += 1
+            v.bump("cluster step ok: %d of %d nodes" % (len(st["running"]), sc["k"]))
+            for qid, node, text in st["queries"]:
+                totals["queries"] += 1
+                if len(st["running"]) > 1:
+                    totals["distributed_answers"] += 1
+                qcase = {"text": text, "optimize": True, "dataset": sc["dataset"], "has_header_row": queryfam.has_header_row(text), "dataset_hash": common.case_hash(sc["backends"]) + str(qid),
+                         "extra": {"part": "cluster", "asked_node": node, "running": st["running"], "assignment": assigned, "step": st["what"], "lines": [l for l in chunk if l["id"] <= qid and l["op"] != "cquery"] + [l for l in chunk if l["id"] == qid]}}
+                queryfam.evaluate_case(v, qcase, impl.get(qid), model.get(qid), set())
+    out.extra_cov["cluster"] = totals
